@@ -112,6 +112,7 @@ Definition spec_code (udp : bool) (off : N) (m : state) (inp : list buf) (tw : l
   else if negb (floweq_ok inp tw out) then
     (if floweq_gen true false inp tw out then 38
      else if floweq_gen false true inp tw out then (if has_prepend m then 37 else 36) else 30)
+  else if negb (csum_kept_ok inp tw out) then 39
   else if negb (udp_order_ok inp tw out) then
     (if udp_order_gen keep_nonempty inp tw out then 41
      else if udp_order_gen keep_eligible inp tw out then 42 else 40)
@@ -123,7 +124,7 @@ Definition spec_code (udp : bool) (off : N) (m : state) (inp : list buf) (tw : l
    toWrite entry of (virtio header ++ packet); a failing handleGRO writes nothing.  The judgement of
    what reached the fd needs no indices: as many segments as inputs, the segments are the inputs
    (multiset, compared bytes), order within UDP flows, uncoalesced datagrams have a zero header,
-   GSO buffers are well-formed with valid checksums.  Codes as in spec_code (10, 20, 30/36/37/38,
+   GSO buffers are well-formed with valid checksums.  Codes as in spec_code (10, 20, 30/36/37/38, 39,
    40/41/42, 51/52/53, 65). *)
 Definition write_code (m : state) (inp : list buf) (outs : list buf) : N :=
   let tw := indices (length outs) 0 in
@@ -134,6 +135,7 @@ Definition write_code (m : state) (inp : list buf) (outs : list buf) : N :=
   else if negb (floweq_ok inp tw outs) then
     (if floweq_gen true false inp tw outs then 38
      else if floweq_gen false true inp tw outs then (if has_prepend m then 37 else 36) else 30)
+  else if negb (csum_kept_ok inp tw outs) then 39
   else if negb (udp_order_ok inp tw outs) then
     (if udp_order_gen keep_nonempty inp tw outs then 41
      else if udp_order_gen keep_eligible inp tw outs then 42 else 40)
